@@ -25,7 +25,7 @@ ASSUMPTIONS = [
 ]
 NCASES = {"quick": 6000, "thorough": 150000}
 NSHARDS = 16
-SHARD_TIMEOUT = {"quick": 600, "thorough": 3600}
+SHARD_TIMEOUT = {"quick": 300, "thorough": 3600}
 
 OPS = ["set", "set", "set", "getitem", "getitem", "get", "del", "contains", "len", "list", "keys", "values", "items", "nested",
        "pop", "popitem", "clear", "update", "setdefault", "eq_dict", "eq_cache", "ne_dict", "ne_keys"]
